@@ -19,7 +19,7 @@ CFGS = ["p"]
 
 
 def budget(tier):
-    return {"examples": 1600 if tier == "quick" else 16000,
+    return {"examples": 8000 if tier == "quick" else 40000,
             "soft_seconds": 150 if tier == "quick" else 1500}
 
 
@@ -29,6 +29,18 @@ def strategy(tier):
 
 
 def run_case(case, ctx):
+    if case.get("exhaustive") and len(case["atoms"]) == 2:
+        # second formulation of the statement ("accepted by every ranking model of D"), evaluated
+        # over ALL rank maps of the four worlds: validates the oracle's reading, not the library
+        from .. import ref
+        atoms, base, queries, allat, sem = opsem.build(case)
+        if len(allat) == 2 and ref.strongly_consistent(sem):
+            M = ref.Model(sem)
+            for _, B, A in queries:
+                a, v, f = sem.qmasks(B, A)
+                if M.p_entailment(a, v, f) != ref.p_entailment_by_models_2atoms(sem, v, f):
+                    raise opsem.HarnessError("tolerance-test and all-ranking-models formulations disagree")
+                ctx.stratum("oracle:two-formulations-agree")
     return opsem.compare(ID, case, ctx, CFGS, extended=False)
 
 
